@@ -15,6 +15,7 @@ class GenOpts:
         self.allow_empty_sensitive = True   # first / last / mean(reduce): may hit the empty-group precondition
         self.ctx_weight = 3
         self.tee_weight = 2
+        self.no_streaming_mutation = False  # oracle works on snapshots: no streaming scan that mutates its accumulator
         self.only_ops = None            # restrict the vocabulary (set of op names)
         self.exclude_ops = ()
         self.__dict__.update(kw)
@@ -114,8 +115,9 @@ def candidates(rng, t, opts, st, depth):
         # a streaming scan that mutates its accumulator emits the SAME object every time: a buffering
         # operator downstream legitimately sees its later mutations.  The batch model cannot express
         # that aliasing, so model-based checks only use the reducing form (C09 covers the streaming one).
-        mut_red = (lambda: True) if opts.model_safe else red
-        if not (opts.model_safe and no_completion):
+        snap_only = opts.model_safe or opts.no_streaming_mutation
+        mut_red = (lambda: True) if snap_only else red
+        if not (snap_only and no_completion):
             A((1, ['scan', 'acc_append_mut', 'list_factory', mut_red(), None]))
             A((1, ['scan', 'acc_append_mut', 'list', mut_red(), None]))
         A((1, ['scan', 'acc_digest', 'zero', red(), None]))
